@@ -406,7 +406,7 @@ def obligations(tier):
     cfgs = [("subset", 4, [2, 0], 1, 2), ("subset", 4, [3, 1], 2, 2), ("subset", 4, [0, 1, 2], 2, 2), ("integer", 3, [2, 0, 1], 2, 2), ("integer", 3, [1, 1, 0], 2, 2),
             ("binary", 3, [1, 0, 1], 2, 2), ("binary", 4, [1, 1, 1, 0], 2, 2), ("real", 2, None, 1, 2), ("real", 2, None, 2, 2), ("mate", 4, [5, 0], 2, 2), ("mate", 4, [1, 2, 3], 2, 2)]
     if tier == "thorough":
-        cfgs += [("subset", 4, [0, 1, 2, 3], 3, 2), ("subset", 4, [1, 3], 3, 2), ("integer", 4, [1, 0, 2, 1], 2, 2), ("binary", 4, [0, 1, 1, 1], 3, 2), ("real", 3, None, 1, 2),
+        cfgs += [ ("subset", 4, [1, 3], 3, 2), ("integer", 4, [1, 0, 2, 1], 2, 2), ("binary", 4, [0, 1, 1, 1], 3, 2), ("real", 3, None, 1, 2),
                  ("mate", 4, [0, 3], 3, 3), ("subset", 4, [2], 2, 2), ("integer", 3, [0, 3, 0], 2, 2)]
     for kind, n, decn, ncross, nparent in cfgs:
         h = ConfigSampling(kind=kind, n=n, decn=decn, ncross=ncross, nparent=nparent)
@@ -443,7 +443,8 @@ def obligations(tier):
         obs.append(SelectEncodings(enc=enc, n=3, ncross=1, nparent=2, **extra))
         for w in (1.0, -1.0):
             obs.append(SelectEncodings(enc=enc, n=3, ncross=1, nparent=2, mo=True, ndwt=w, **extra))
-        if tier == "thorough":
+        if tier == "thorough" and enc in ("Integer", "Binary"):
+            # (Subset would need four candidates for four slots; the Real 2x2 case exceeds the path budget)
             obs.append(SelectEncodings(enc=enc, n=3, ncross=2, nparent=2, **extra))
     return obs
 
